@@ -17,6 +17,7 @@ DEFAULT_FILES = [
     "src/core/execute.rs", "src/core/optimize.rs", "src/core/compile.rs", "src/core/parse.rs", "src/core/area.rs",
     "src/core/state.rs", "src/core/code.rs", "src/number/num.rs", "src/number/big_number.rs", "src/app/debug.rs",
     "src/app/interpreter.rs", "src/app/run.rs", "src/app/build.rs", "src/app/check.rs", "src/util/io.rs", "src/util/ext.rs",
+    "src/util/option.rs", "src/util/error.rs", "src/main.rs",
 ]
 SWAPS = [
     (r"<=", "<"), (r"(?<![<=!>-])<(?![<=])", "<="), (r">=", ">"), (r"(?<![-=>])>(?![>=])", ">="), (r"==", "!="), (r"!=", "=="),
@@ -24,6 +25,15 @@ SWAPS = [
     (r"\btrue\b", "false"), (r"\bfalse\b", "true"), (r"!(?=[a-z_(*])", ""), (r"\.is_empty\(\)", ".is_empty() == false"),
     (r"\b0\b", "1"), (r"\b1\b", "2"), (r"\b2\b", "3"), (r"\b3\b", "4"), (r"\b4\b", "5"),
 ]
+
+
+# wrong-variable mutants: identifiers that come in pairs in this code base (one is written where the other belongs)
+PAIRS = [("left", "right"), ("out", "err"), ("stdout", "stderr"), ("lhs", "rhs"), ("up", "down"), ("get_hangul_count", "get_dot_count"),
+         ("hangul_count", "dot_count"), ("min", "max"), ("add_core", "sub_core"), ("Less", "Greater"), ("i", "j"), ("a", "b"),
+         ("push_stack", "pop_stack"), ("is_pos", "is_nan"), ("get_area_count", "get_hangul_count"), ("first", "last"), ("Some", "None"),
+         ("add", "sub"), ("mul", "div"), ("area", "qu_area"), ("leaf", "qu_leaf"), ("get_stack(1)", "get_stack(2)"), ("idx", "i")]
+SWAPS2 = [(r"\.rev\(\)", ""), (r"\.clone\(\)", ""), (r"\b(\d\d+)\b", "+1"), (r"\b([5-9])\b", "+1"), (r" \* ", " + "), (r" / ", " * "), (r" % ", " / "), (r"<<", ">>"), (r">>", "<<"),
+          (r"\^=", "|="), (r"\.0\b", ".1"), (r"\.1\b", ".0"), (r"\.is_empty\(\)", ".is_empty() == false"), (r"\bcontinue;", "break;"), (r"\bbreak;", "continue;")]
 
 
 def code_lines(path):
@@ -63,6 +73,19 @@ def mutants(files, rnd):
                     new = code[: m.start()] + rep + code[m.end():] + l[len(code):]
                     if new != l:
                         ms.append({"file": f, "line": i, "old": l.strip(), "new": new.strip(), "text": new})
+            for pat, rep in SWAPS2:
+                for m in re.finditer(pat, code):
+                    r_ = str(int(m.group(1)) + 1) if rep == "+1" else rep
+                    new = code[: m.start()] + r_ + code[m.end():] + l[len(code):]
+                    if new != l and "::<" not in code[max(0, m.start() - 3): m.end() + 3]:
+                        ms.append({"file": f, "line": i, "old": l.strip(), "new": new.strip(), "text": new, "op": "swap2"})
+            for x, y in PAIRS:
+                for a_, b_ in ((x, y), (y, x)):
+                    for m in re.finditer(r"(?<![A-Za-z0-9_])" + re.escape(a_) + r"(?![A-Za-z0-9_])", code):
+                        if code[: m.start()].rstrip().endswith(("let", "let mut", "fn", "mut", "ref", "ref mut")) or code[m.end():].lstrip().startswith(":") and not code[m.end():].lstrip().startswith("::"):
+                            continue  # a declaration or a struct field name, not a use
+                        new = code[: m.start()] + b_ + code[m.end():] + l[len(code):]
+                        ms.append({"file": f, "line": i, "old": l.strip(), "new": new.strip(), "text": new, "op": "pair"})
             # statement deletion: a one-line statement that is not a declaration
             st = code.strip()
             if re.match(r"^(\*?[a-z_][A-Za-z0-9_.\[\]()&*]*\s*([-+*/%]?=)[^=]|[a-z_][A-Za-z0-9_.:]*(\.[a-z_]+)*\(|continue;|break;)", st) and st.endswith(";") and not st.startswith(("let ", "return", "use ", "pub ")) and st.count("(") == st.count(")"):
@@ -96,11 +119,14 @@ def run(m, cache):
 
 def main():
     a = sys.argv[1:]
-    opt = {"--max": "200", "--jobs": "8", "--seed": "1", "--out": os.path.join(VERIF, ".cache", "mutsweep.json"), "--files": ",".join(DEFAULT_FILES)}
+    opt = {"--max": "200", "--jobs": "8", "--seed": "1", "--out": os.path.join(VERIF, ".cache", "mutsweep.json"), "--files": ",".join(DEFAULT_FILES), "--ops": ""}
     for i in range(0, len(a) - 1, 2):
         opt[a[i]] = a[i + 1]
     rnd = random.Random(int(opt["--seed"]))
-    ms = mutants(opt["--files"].split(","), rnd)[: int(opt["--max"])]
+    ms = mutants(opt["--files"].split(","), rnd)
+    if opt["--ops"]:
+        ms = [m for m in ms if m.get("op", "base") in opt["--ops"].split(",")]
+    ms = ms[: int(opt["--max"])]
     jobs = int(opt["--jobs"])
     caches = [os.path.join(VERIF, ".cache", "mut%d" % k) for k in range(jobs)]
     res = []
